@@ -142,13 +142,31 @@ Proof.
   cbn [snd] in *. destruct (lu <? now s) eqn:El; cbn [snd]; b2p; lia.
 Qed.
 
+Lemma spent_lu s f sp a x y :
+  negb (a <? 0) && spend_ok (view_st s) f sp a = true ->
+  snd (alw (spent s f sp a) x y) = snd (alw s x y).
+Proof.
+  unfold spend_ok, view_st, implies. cbn [v_alw]. intros H. unfold spent.
+  destruct (0 <? a) eqn:E0; [|reflexivity].
+  cbn [set_alw alw]. unfold upd2. destruct (N.eqb x f && N.eqb y sp) eqn:Exy; [|reflexivity].
+  cbn [snd]. b2p. subst. unfold allowance, allowance_data in *.
+  destruct (alw s f sp) as [al lu]. destruct (lu <? now s) eqn:El; cbn [fst snd] in *; [lia|reflexivity].
+Qed.
+
+(* live_until of the stored allowances after a token operation *)
+Definition exp_lu (s : state) (o : op) (x y : addr) : Z :=
+  match o with
+  | Approve ow sp _ lu => if N.eqb x ow && N.eqb y sp then lu else snd (alw s x y)
+  | _ => snd (alw s x y)
+  end.
+
 (* ------------------------------------------------------------------ *)
 (* the fungible core meets its observation-level specification         *)
 Definition tok_effects (s : state) (o : op) (s' : state) : Prop :=
   supply s' = exp_supply (view_st s) o /\
   (forall x, bal s' x = exp_bal (view_st s) o x) /\
   (forall x y, allowance s' x y = exp_alw (view_st s) o x y) /\
-  same_gates s s'.
+  same_gates s s' /\ (forall x y, snd (alw s' x y) = exp_lu s o x y).
 
 Definition op_spec (c : cfg) (h : hist) (s : state) (au : list addr) (o : op) (r : res state) : Prop :=
   match r with
@@ -172,7 +190,7 @@ Proof.
   destruct (debit_ok (view_st s) f a); cbn [andb]; [|reflexivity].
   destruct (credit_ok (view_st s) (Some f) t a); [|reflexivity].
   split; [reflexivity|]. split.
-  - unfold tok_effects. split; [reflexivity|]. split; [|split; [|repeat split]].
+  - unfold tok_effects. split; [reflexivity|]. split; [|split; [|repeat split; try (intros x y; cbn [set_alw alw exp_lu]; unfold upd2; destruct (N.eqb x _ && N.eqb y _); reflexivity)]].
     + intros x. cbn [exp_bal view_st v_bal set_bal bal]. unfold updZ. reflexivity.
     + intros x y. reflexivity.
   - eapply inv_same_alw; eauto.
@@ -188,7 +206,7 @@ Proof.
   destruct (debit_ok (view_st s) f a); cbn [andb]; [|reflexivity].
   destruct (in_i128 (supply s - a)); [|reflexivity].
   split; [reflexivity|]. split.
-  - unfold tok_effects. split; [reflexivity|]. split; [|split; [|repeat split]].
+  - unfold tok_effects. split; [reflexivity|]. split; [|split; [|repeat split; try (intros x y; cbn [set_alw alw exp_lu]; unfold upd2; destruct (N.eqb x _ && N.eqb y _); reflexivity)]].
     + intros x. cbn [exp_bal view_st v_bal set_bal set_supply bal]. unfold updZ. reflexivity.
     + intros x y. reflexivity.
   - eapply inv_same_alw; eauto.
@@ -203,7 +221,7 @@ Proof.
   destruct (in_i128 (supply s + a)); cbn [andb]; [|reflexivity].
   destruct (credit_ok (view_st s) None t a); [|reflexivity].
   split; [reflexivity|]. split.
-  - unfold tok_effects. split; [reflexivity|]. split; [|split; [|repeat split]].
+  - unfold tok_effects. split; [reflexivity|]. split; [|split; [|repeat split; try (intros x y; cbn [set_alw alw exp_lu]; unfold upd2; destruct (N.eqb x _ && N.eqb y _); reflexivity)]].
     + intros x. cbn [exp_bal view_st v_bal set_bal set_supply bal]. unfold updZ. reflexivity.
     + intros x y. reflexivity.
   - eapply inv_same_alw; eauto.
@@ -218,7 +236,7 @@ Proof.
   destruct (a <? 0) eqn:Ea; cbn [negb bind andb]; [reflexivity|].
   destruct (negb ((now s + max_ttl c - 1 <? lu) || (0 <? a) && (lu <? now s))) eqn:G; cbn [bind]; [|reflexivity].
   split; [reflexivity|]. split.
-  - unfold tok_effects. split; [reflexivity|]. split; [|split; [|repeat split]].
+  - unfold tok_effects. split; [reflexivity|]. split; [|split; [|repeat split; try (intros x y; cbn [set_alw alw exp_lu]; unfold upd2; destruct (N.eqb x _ && N.eqb y _); reflexivity)]].
     + intros x. reflexivity.
     + intros x y. rewrite allowance_unfold. cbn [set_alw alw now exp_alw view_st v_alw]. unfold upd2.
       destruct (N.eqb x o && N.eqb y sp); [|rewrite <- allowance_unfold; reflexivity].
@@ -254,7 +272,8 @@ Proof.
     + intros x. cbn [exp_bal view_st v_bal set_bal bal]. rewrite Hb. unfold updZ. reflexivity.
     + intros x y. rewrite (allowance_same (spent s f sp a)) by reflexivity.
       rewrite spent_allowance by exact ES. reflexivity.
-    + destruct Hg as (g1 & g2 & g3 & g4 & g5 & g6 & g7 & g8). repeat split; cbn; assumption.
+    + destruct Hg as (g1 & g2 & g3 & g4 & g5 & g6 & g7 & g8). split; [repeat split; cbn; assumption|].
+      intros x y. cbn [exp_lu set_bal set_supply alw]. apply spent_lu. exact ES.
   - eapply inv_same_alw; [| |apply (spent_inv c s f sp a HI)]; reflexivity.
 Qed.
 
@@ -280,7 +299,8 @@ Proof.
     + intros x. cbn [exp_bal view_st v_bal set_bal set_supply bal]. rewrite Hb. unfold updZ. reflexivity.
     + intros x y. rewrite (allowance_same (spent s f sp a)) by reflexivity.
       rewrite spent_allowance by exact ES. reflexivity.
-    + destruct Hg as (g1 & g2 & g3 & g4 & g5 & g6 & g7 & g8). repeat split; cbn; assumption.
+    + destruct Hg as (g1 & g2 & g3 & g4 & g5 & g6 & g7 & g8). split; [repeat split; cbn; assumption|].
+      intros x y. cbn [exp_lu set_bal set_supply alw]. apply spent_lu. exact ES.
   - eapply inv_same_alw; [| |apply (spent_inv c s f sp a HI)]; reflexivity.
 Qed.
 
@@ -288,13 +308,13 @@ Qed.
 (* every entry point of every contract meets the specification          *)
 Definition Rel (c : cfg) (h : hist) (s : state) : Prop :=
   h_now h = now s /\ h_paused h = paused s /\ (forall x, h_listed h x = listed c s x) /\ h_armed h = migrating s /\
-  (forall x, h_mgr h x = mgr s x).
+  (forall x, h_mgr h x = mgr s x) /\ (forall x y, h_lu h x y = snd (alw s x y)).
 
 Definition effects (s : state) (o : op) (s' : state) : Prop :=
   supply s' = exp_supply (view_st s) o /\
   (forall x, bal s' x = exp_bal (view_st s) o x) /\
   (forall x y, match o with
-               | Advance _ => allowance s' x y = allowance s x y \/ allowance s' x y = 0
+               | Advance n => allowance s' x y = if snd (alw s x y) <? now s + n then 0 else allowance s x y
                | _ => allowance s' x y = exp_alw (view_st s) o x y
                end) /\
   cap s' = exp_cap (view_st s) o /\ mdata s' = exp_data (view_st s) o.
@@ -321,10 +341,14 @@ Lemma if_and (a b : bool) (r : res state) :
   (if a then (if b then r else Fail) else Fail) = if a && b then r else Fail.
 Proof. destruct a, b; reflexivity. Qed.
 
-Lemma rel_same_gates c h s s' : Rel c h s -> same_gates s s' -> Rel c h s'.
+Lemma rel_tok c h s o s' : is_token_op o = true -> Rel c h s -> same_gates s s' ->
+  (forall x y, snd (alw s' x y) = exp_lu s o x y) -> Rel c (hist_upd h o) s'.
 Proof.
-  intros (Rn & Rp & Rl & Ra & Rm) (g1 & g2 & g3 & g4 & g5 & g6 & g7 & g8).
-  unfold Rel, listed. rewrite g1, g2, g3, g4, g6, g8. repeat split; assumption.
+  intros Ht (Rn & Rp & Rl & Ra & Rm & Ru) (g1 & g2 & g3 & g4 & g5 & g6 & g7 & g8) Hl.
+  unfold Rel, listed. rewrite g1, g2, g3, g4, g6, g8.
+  destruct o; cbn in Ht; try discriminate; cbn [hist_upd h_now h_paused h_listed h_armed h_mgr h_lu];
+    repeat split; try assumption; intros x y; rewrite Hl; cbn [exp_lu]; try apply Ru.
+  rewrite Ru. reflexivity.
 Qed.
 
 Lemma gated_token c h s au o (g : bool) (r : res state) :
@@ -340,10 +364,9 @@ Proof.
       repeat rewrite <- andb_assoc; repeat (f_equal; try apply andb_comm). }
   unfold step_spec. destruct g; [|rewrite HE; reflexivity].
   unfold op_spec in Hs. destruct r as [s'|]; [|rewrite HE, Hs; reflexivity].
-  destruct Hs as (Hb & (e1 & e2 & e3 & e4) & HI).
+  destruct Hs as (Hb & (e1 & e2 & e3 & e4 & e5) & HI).
   rewrite HE, Hb. split; [reflexivity|]. cbn [fst].
-  assert (Hh : hist_upd h o = h) by (destruct o; cbn in Ht; try discriminate; reflexivity).
-  rewrite Hh. split; [|split; [eapply rel_same_gates; eauto|exact HI]].
+  split; [|split; [eapply rel_tok; eauto|exact HI]].
   destruct e4 as (g1 & g2 & g3 & g4 & g5 & g6 & g7 & g8).
   unfold effects. split; [exact e1|]. split; [exact e2|]. split.
   - intros x y. specialize (e3 x y). destruct o; cbn in Ht; try discriminate; exact e3.
@@ -369,7 +392,7 @@ Proof. intros. change r with (if true then r else Fail). eapply gated_token; eau
 
 Ltac side_gate K HR :=
   let Rn := fresh "Rn" in let Rp := fresh "Rp" in let Rl := fresh "Rl" in let Ra := fresh "Ra" in let Rm := fresh "Rm" in
-  destruct HR as (Rn & Rp & Rl & Ra & Rm);
+  destruct HR as (Rn & Rp & Rl & Ra & Rm & Ru);
   unfold gate_open; rewrite K;
   cbn [has_entry kind_eqb pausable_op vetted forallb is_mint implies andb negb orb view_st v_cap v_supply];
   rewrite ?Rp, ?Rl; unfold listed; rewrite ?K; cbn [is_block];
@@ -381,7 +404,7 @@ Ltac side_gate K HR :=
 
 Ltac open_exec K :=
   unfold exec, exec_gen, exec_kind; cbn [fst snd]; rewrite K;
-  cbn [exec_paus exec_paus_lib exec_allow_ex exec_allow_lib exec_block_ex exec_block_lib exec_cap_ex exec_cap_lib
+  cbn [exec_paus exec_paus_ex exec_paus_lib exec_allow_ex exec_allow_lib exec_block_ex exec_block_lib exec_cap_ex exec_cap_lib
        exec_upg_v1 exec_upg_v2 exec_upg_lib].
 
 Ltac no_entry K :=
@@ -401,7 +424,7 @@ Ltac tok K HR HI base :=
 
 Ltac gate_open_case K HR :=
   open_exec K; unfold step_spec, expected_ok; cbn [fst snd]; rewrite K; cbn [kind_eqb andb orb];
-  destruct HR as (Rn & Rp & Rl & Ra & Rm).
+  destruct HR as (Rn & Rp & Rl & Ra & Rm & Ru).
 
 (* after a gate operation: effects trivial, Rel follows the history update, Inv unchanged *)
 Ltac gate_post HI Rn Rp Rl Ra :=
@@ -428,16 +451,19 @@ Proof.
     unfold exec, exec_gen. cbn [fst snd]. rewrite bind_guard.
     unfold step_spec, expected_ok. cbn [fst snd].
     destruct (n <? 0) eqn:En; cbn [negb]; [reflexivity|].
-    split; [reflexivity|]. destruct HI as [H0 HI]. destruct HR as (Rn & Rp & Rl & Ra & Rm). b2p.
+    split; [reflexivity|]. destruct HI as [H0 HI]. destruct HR as (Rn & Rp & Rl & Ra & Rm & Ru). b2p.
     split; [|split].
     + unfold effects. repeat split.
       intros x y. rewrite !allowance_unfold. cbn [set_now alw now].
-      destruct (snd (alw s x y) <? now s + n) eqn:E1; [right; reflexivity|].
-      left. b2p. assert (E2 : (snd (alw s x y) <? now s) = false) by (apply Z.ltb_ge; lia).
+      destruct (snd (alw s x y) <? now s + n) eqn:E1; [reflexivity|].
+      b2p. assert (E2 : (snd (alw s x y) <? now s) = false) by (apply Z.ltb_ge; lia).
       rewrite E2. reflexivity.
     + unfold Rel. cbn. rewrite Rn. repeat split; assumption.
     + split; cbn [set_now now alw]; [lia|]. intros x y. specialize (HI x y). lia.
   - (* Transfer *)
+    destruct (knd c) eqn:K; try (no_entry K); tok K HR HI base_transfer_spec.
+  - (* TransferMux: the token code sees to.address() only *)
+    change (step_spec c h s (Transfer from to amt, au) (exec c s (Transfer from to amt, au))).
     destruct (knd c) eqn:K; try (no_entry K); tok K HR HI base_transfer_spec.
   - destruct (knd c) eqn:K; try (no_entry K); tok K HR HI base_transfer_from_spec.
   - destruct (knd c) eqn:K; try (no_entry K); tok K HR HI base_approve_spec.
@@ -445,21 +471,15 @@ Proof.
   - destruct (knd c) eqn:K; try (no_entry K); tok K HR HI base_burn_from_spec.
   - destruct (knd c) eqn:K; try (no_entry K); tok K HR HI base_mint_spec.
   - (* Pause *)
-    destruct (knd c) eqn:K; try (no_entry K); gate_open_case K HR; rewrite ?orb_false_r.
-    + unfold pause, when_not_paused, require_auth. rewrite ?bind_guard, ?if_and. rewrite <- Rp.
-      match goal with |- match (if ?G then _ else _) with _ => _ end => destruct G end; [|reflexivity].
-      split; [reflexivity|]. gate_post HI Rn Rp Rl Ra.
-    + unfold pause, when_not_paused. rewrite ?bind_guard. rewrite <- Rp.
-      match goal with |- match (if ?G then _ else _) with _ => _ end => destruct G end; [|reflexivity].
-      split; [reflexivity|]. gate_post HI Rn Rp Rl Ra.
+    destruct (knd c) eqn:K; try (no_entry K); gate_open_case K HR; rewrite ?orb_false_r;
+      unfold pause, when_not_paused, require_auth; rewrite ?bind_guard, ?if_and; rewrite <- Rp;
+      (match goal with |- match (if ?G then _ else _) with _ => _ end => destruct G end; [|reflexivity]);
+      (split; [reflexivity|]); gate_post HI Rn Rp Rl Ra.
   - (* Unpause *)
-    destruct (knd c) eqn:K; try (no_entry K); gate_open_case K HR; rewrite ?orb_false_r.
-    + unfold unpause, when_paused, require_auth. rewrite ?bind_guard, ?if_and. rewrite <- Rp.
-      match goal with |- match (if ?G then _ else _) with _ => _ end => destruct G end; [|reflexivity].
-      split; [reflexivity|]. gate_post HI Rn Rp Rl Ra.
-    + unfold unpause, when_paused. rewrite ?bind_guard. rewrite <- Rp.
-      match goal with |- match (if ?G then _ else _) with _ => _ end => destruct G end; [|reflexivity].
-      split; [reflexivity|]. gate_post HI Rn Rp Rl Ra.
+    destruct (knd c) eqn:K; try (no_entry K); gate_open_case K HR; rewrite ?orb_false_r;
+      unfold unpause, when_paused, require_auth; rewrite ?bind_guard, ?if_and; rewrite <- Rp;
+      (match goal with |- match (if ?G then _ else _) with _ => _ end => destruct G end; [|reflexivity]);
+      (split; [reflexivity|]); gate_post HI Rn Rp Rl Ra.
   - (* AllowUser *)
     destruct (knd c) eqn:K; try (no_entry K); gate_open_case K HR.
     + unfold only_manager, require_auth. rewrite ?bind_guard2, ?bind_guard, ?if_and. rewrite orb_false_r, (Rm operator).
@@ -503,11 +523,11 @@ Proof.
       (match goal with |- match (if ?G then _ else _) with _ => _ end => destruct G end; [|reflexivity]);
       (split; [reflexivity|]); gate_post HI Rn Rp Rl Ra.
   - (* Migrate *)
-    destruct (knd c) eqn:K; try (no_entry K). gate_open_case K HR.
-    unfold migrate, upg_require_auth, ensure_can_complete_migration, require_auth. rewrite ?bind_guard2, ?bind_guard, ?if_and.
-    rewrite <- Ra.
-    match goal with |- match (if ?G then _ else _) with _ => _ end => destruct G end; [|reflexivity].
-    split; [reflexivity|]. gate_post HI Rn Rp Rl Ra.
+    destruct (knd c) eqn:K; try (no_entry K); gate_open_case K HR;
+    unfold migrate, upg_require_auth, ensure_can_complete_migration, require_auth; rewrite ?bind_guard2, ?bind_guard, ?if_and;
+    rewrite <- Ra;
+    (match goal with |- match (if ?G then _ else _) with _ => _ end => destruct G end; [|reflexivity]);
+    (split; [reflexivity|]); gate_post HI Rn Rp Rl Ra.
   - (* LibEnable *)
     destruct (knd c) eqn:K; try (no_entry K). gate_open_case K HR.
     split; [reflexivity|]. gate_post HI Rn Rp Rl Ra.
@@ -519,16 +539,16 @@ Proof.
     unfold ensure_can_complete_migration. rewrite ?bind_guard. rewrite Ra.
     destruct (migrating s) eqn:EM; [|reflexivity].
     split; [reflexivity|]. gate_post HI Rn Rp Rl Ra.
-  - (* WhenNotPaused *)
-    destruct (knd c) eqn:K; try (no_entry K). gate_open_case K HR.
-    unfold when_not_paused. rewrite ?bind_guard. rewrite Rp.
-    destruct (paused s) eqn:EP; [reflexivity|].
-    split; [reflexivity|]. gate_post HI Rn Rp Rl Ra.
-  - (* WhenPaused *)
-    destruct (knd c) eqn:K; try (no_entry K). gate_open_case K HR.
-    unfold when_paused. rewrite ?bind_guard. rewrite Rp.
-    destruct (paused s) eqn:EP; [|reflexivity].
-    split; [reflexivity|]. gate_post HI Rn Rp Rl Ra.
+  - (* WhenNotPaused = increment *)
+    destruct (knd c) eqn:K; try (no_entry K); gate_open_case K HR;
+      unfold increment, when_not_paused; rewrite ?bind_guard, ?if_and; rewrite Rp; cbn [view_st v_supply];
+      (match goal with |- match (if ?G then _ else _) with _ => _ end => destruct G end; [|reflexivity]);
+      (split; [reflexivity|]); gate_post HI Rn Rp Rl Ra.
+  - (* WhenPaused = emergency_reset *)
+    destruct (knd c) eqn:K; try (no_entry K); gate_open_case K HR;
+      unfold emergency_reset, when_paused; rewrite ?bind_guard; rewrite Rp;
+      (destruct (paused s) eqn:EP; [|reflexivity]);
+      (split; [reflexivity|]); gate_post HI Rn Rp Rl Ra.
   - (* GrantManager *)
     destruct (knd c) eqn:K; try (no_entry K); gate_open_case K HR;
       unfold grant_manager, ensure_admin, require_auth; rewrite ?bind_guard, ?if_and;
@@ -606,7 +626,7 @@ Theorem gates_follow_history c cs : wf_cfg c = true ->
   now s = h_now h /\ paused s = h_paused h /\ (forall x, listed c s x = h_listed h x) /\ migrating s = h_armed h /\
   (forall x, mgr s x = h_mgr h x).
 Proof.
-  intros Hw. destruct (hist_run_inv c cs _ _ (init_inv c Hw) (init_rel c)) as [(R1 & R2 & R3 & R4 & R5) _].
+  intros Hw. destruct (hist_run_inv c cs _ _ (init_inv c Hw) (init_rel c)) as [(R1 & R2 & R3 & R4 & R5 & R6) _].
   rewrite hist_run_state in *. cbn zeta. repeat split; intros; symmetry; auto.
 Qed.
 
@@ -617,6 +637,6 @@ Proof.
 Qed.
 
 (* the history that describes a given state *)
-Definition hist_of (c : cfg) (s : state) : hist := mkHist (now s) (paused s) (listed c s) (migrating s) (mgr s).
+Definition hist_of (c : cfg) (s : state) : hist := mkHist (now s) (paused s) (listed c s) (migrating s) (mgr s) (fun x y => snd (alw s x y)).
 Lemma rel_hist_of c s : Rel c (hist_of c s) s.
 Proof. repeat split. Qed.
